@@ -12,6 +12,7 @@ import (
 	"github.com/hydraide/hydraide/app/name"
 	"github.com/hydraide/hydraide/app/zzsim/simdisk"
 	"github.com/hydraide/hydraide/app/zzsim/simrt"
+	"google.golang.org/protobuf/types/known/timestamppb"
 )
 
 // C16 — acknowledged writes survive eviction, auto-destroy and shutdown.
@@ -69,7 +70,13 @@ func genC16(seed uint64, tier string, prop string) Case {
 		for s := 0; s < steps; s++ {
 			w := waits[r.intn(len(waits))]
 			sw := int64(r.intn(int(nsw)))
-			switch r.pick(10, 4, 2, 1, 2, 3, 3) {
+			switch r.pick(10, 4, 2, 1, 2, 3, 3, 3, 2) {
+			case 7:
+				// a record that is already expired when it is written: ShiftExpiredTreasures may claim it
+				c.Ops = append(c.Ops, Op{C: cl, K: "setx", A: []int64{w, sw}})
+			case 8:
+				// claim expired records (emptying the swamp this way auto-destroys it while other claimers may be queued)
+				c.Ops = append(c.Ops, Op{C: cl, K: "shiftexp", A: []int64{w, sw, int64(1 + r.intn(10))}})
 			case 6:
 				// a request whose context is already cancelled (or expires within a few simulated ms) when it reaches
 				// the server: it gives up while summoning the swamp
@@ -140,7 +147,8 @@ func genC16(seed uint64, tier string, prop string) Case {
 }
 
 type lifeEv struct {
-	kind       string // set del shift destroy
+	keys       []string // shiftexp: the keys it was handed
+	kind       string   // set del shift shiftexp destroy
 	swamp, key string
 	call, ret  int64
 	at         time.Duration
@@ -230,9 +238,11 @@ func runC16(t *testing.T, c Case) (res Result) {
 	readBack := map[string]map[string]bool{}
 	readErr := ""
 	overlapLifecycle := false
+	var probe *summonProbe
 	out := runSim(t, c.Sched, func() {
 		disk = simdisk.New()
 		srv := startServer(disk, idle, wi)
+		probe = srv.watchSummons()
 		root := &gwClient{srv: srv, island: 1, timeout: 120 * time.Second}
 		root.register("verif/life/*", false, idle, wi)
 		start := time.Now()
@@ -279,7 +289,20 @@ func runC16(t *testing.T, c Case) (res Result) {
 					done := false
 					var rid int32
 					switch op.K {
-					case "set", "reset":
+					case "shiftexp":
+						e.call = simrt.EventSeq()
+						rid = simrt.GoID(func() {
+							resp, err := srv.gw.ShiftExpiredTreasures(ctxBg, &hydrapb.ShiftExpiredTreasuresRequest{IslandID: 1, SwampName: sw, HowMany: int32(op.A[2])})
+							if err == nil && resp != nil {
+								e.acked = true
+								for _, tr := range resp.Treasures {
+									e.keys = append(e.keys, tr.Key)
+								}
+								e.removed = len(e.keys) > 0
+							}
+							done = true
+						})
+					case "set", "reset", "setx":
 						n++
 						e.key = fmt.Sprintf("c%d-%d", cl, n)
 						if op.K == "reset" {
@@ -296,10 +319,15 @@ func runC16(t *testing.T, c Case) (res Result) {
 							e.kind = "set"
 						}
 						val := fmt.Sprintf("%s#%d", e.key, n)
+						kv := &hydrapb.KeyValuePair{Key: e.key, StringVal: &val}
+						if op.K == "setx" {
+							e.kind = "set"
+							kv.ExpiredAt = timestamppb.New(time.Now().Add(-time.Second))
+						}
 						e.call = simrt.EventSeq()
 						rid = simrt.GoID(func() {
 							resp, err := srv.gw.Set(ctxBg, &hydrapb.SetRequest{Swamps: []*hydrapb.SwampRequest{{IslandID: 1, SwampName: sw, CreateIfNotExist: true, Overwrite: true,
-								KeyValues: []*hydrapb.KeyValuePair{{Key: e.key, StringVal: &val}}}}})
+								KeyValues: []*hydrapb.KeyValuePair{kv}}}})
 							if err == nil && resp != nil && len(resp.Swamps) == 1 && len(resp.Swamps[0].KeysAndStatuses) == 1 {
 								st := resp.Swamps[0].KeysAndStatuses[0].Status
 								e.acked = st == hydrapb.Status_NEW || st == hydrapb.Status_UPDATED
@@ -374,11 +402,14 @@ func runC16(t *testing.T, c Case) (res Result) {
 						return
 					}
 					e.ret = simrt.EventSeq()
-					if (op.K == "set" || op.K == "reset") && e.acked {
+					if (op.K == "set" || op.K == "reset" || op.K == "setx") && e.acked {
 						written = append(written, sw+"|"+e.key)
 					}
 					if (op.K == "del" || op.K == "shift") && e.acked && e.removed {
 						removedKeys = append(removedKeys, sw+"|"+e.key)
+					}
+					for _, k := range e.keys {
+						removedKeys = append(removedKeys, sw+"|"+k)
 					}
 					if op.K != "get" && op.K != "getx" {
 						evs = append(evs, e)
@@ -477,6 +508,15 @@ func runC16(t *testing.T, c Case) (res Result) {
 			return fail(violation("two_writers_on_one_file", "the simulated disk saw %d write handles open on one .hyd file at once", mw))
 		}
 	}
+	if probe != nil {
+		res.count("summons_observed", probe.summons)
+		res.count("summons_begun_while_an_instance_was_closing", probe.judgable)
+		if probe.finding != "" {
+			// both properties rest on it: C18 (a request is only ever served by the current instance) and C16 (what a
+			// closing instance accepts after its final flush is never written)
+			return fail(violation("closing_instance_handed_to_a_later_request", "%s", probe.finding))
+		}
+	}
 	if hungRPC != "" {
 		cl := "request_never_returns"
 		if strings.HasPrefix(hungRPC, "StopHydra") {
@@ -492,7 +532,7 @@ func runC16(t *testing.T, c Case) (res Result) {
 	}
 	// lifecycle overlap for the non-triviality rule
 	for _, e := range evs {
-		if e.kind == "destroy" || e.kind == "stop" || ((e.kind == "del" || e.kind == "shift") && e.removed) {
+		if e.kind == "destroy" || e.kind == "stop" || ((e.kind == "del" || e.kind == "shift" || e.kind == "shiftexp") && e.removed) {
 			for _, w := range evs {
 				if w.kind == "set" && w.swamp == e.swamp || e.kind == "stop" && w.kind == "set" {
 					if w.call < e.ret && e.call < w.ret {
@@ -522,6 +562,12 @@ func runC16(t *testing.T, c Case) (res Result) {
 					continue // strictly before the write
 				}
 				switch r.kind {
+				case "shiftexp":
+					for _, k := range r.keys {
+						if r.swamp == w.swamp && k == w.key {
+							excused = true
+						}
+					}
 				case "del", "shift":
 					if r.swamp == w.swamp && r.key == w.key && r.removed {
 						excused = true
@@ -542,7 +588,7 @@ func runC16(t *testing.T, c Case) (res Result) {
 				}
 				if r.call < w.ret && w.call < r.ret {
 					switch {
-					case (r.kind == "del" || r.kind == "shift") && !(r.key == w.key && r.removed):
+					case (r.kind == "del" || r.kind == "shift" || r.kind == "shiftexp") && !(r.key == w.key && r.removed):
 						// a delete/shift that leaves the swamp empty destroys it, whether or not it removed anything itself
 						why = "concurrent_delete_or_shift_emptying_the_swamp(auto_destroy)"
 					case r.kind == "stop":
